@@ -1323,7 +1323,6 @@ class BDD(dd._abc.BDD[_Ref]):
         cache[u] = r
         return r
 
-    @_try_to_reorder
     def quantify(
             self,
             u:
@@ -1345,7 +1344,24 @@ class BDD(dd._abc.BDD[_Ref]):
             then quantify `qvars` universally,
             else existentially.
         """
-        qvars = self._map_to_level(set(qvars))
+        # `qvars` can be an iterator, and
+        # the method below can be called twice
+        # (when the variables are reordered)
+        return self._quantify_vars(
+            u, set(qvars), forall)
+
+    @_try_to_reorder
+    def _quantify_vars(
+            self,
+            u:
+                _Ref,
+            qvars:
+                set[_VariableName],
+            forall:
+                _Yes
+            ) -> _Ref:
+        """Return abstraction of `qvars` in `u`."""
+        qvars = self._map_to_level(qvars)
         cache = dict()
         ordvar = sorted(qvars)
         j = 0
